@@ -332,6 +332,11 @@ def precedence(chk, sf, dprog, cfg):
     chk.rule("R3.3", "variant index precedence: #[codec(index = N)] > explicit discriminant > position, in both crates; the derive emits "
              "`.index(<that> as ::core::primitive::u8)`")
     b = dprog.body(dprog.fn("utils::variant_index"))
+    # the reader of the index attribute is whatever attribute recogniser variant_index consults (its name is not behaviour)
+    recs_ = cd.recognisers(dprog)
+    callees_ = {mir.strip_generics(t_.get("resolved") or t_.get("callee") or "") for bp_ in cd.closure_tree(dprog, b.path) for _, t_ in dprog.body(bp_).calls()}
+    readers_ = sorted(c_ for c_ in callees_ if c_ in recs_ and c_ != mir.strip_generics(b.path) and recs_[c_]["keys"])
+    reader = readers_[0] if len(readers_) == 1 else cd.D + "utils::maybe_index"
     # abstract interpretation of variant_index over the four scenarios (index attribute present?, explicit discriminant?):
     # which value is tokenised into the result must be IDX, else the discriminant EXPR, else the position `i`
     from ..lib import absint
@@ -344,7 +349,7 @@ def precedence(chk, sf, dprog, cfg):
 
             def h(name, args, t, has_idx=has_idx, has_disc=has_disc, log=log):
                 decl = mir.strip_generics(t.get("callee") or "")
-                if name.endswith("utils::maybe_index"):
+                if mir.strip_generics(name) == reader:
                     return absint.some(absint.Sym("IDX")) if has_idx else absint.NONE
 
                 if decl == "quote::to_tokens::ToTokens::to_tokens" or name.endswith("ToTokens::to_tokens"):
@@ -372,7 +377,7 @@ def precedence(chk, sf, dprog, cfg):
             {"%s/%s" % k: v for k, v in table.items()}, {"%s/%s" % k: v for k, v in want.items()})
     chk.expect(ok, "R3.3", "scale-info-derive:variant_index-chain", b.where(), detail, cfg)
     # maybe_index looks for NameValue `index` under codec
-    rec = cd.recognisers(dprog).get(cd.D + "utils::maybe_index")
+    rec = recs_.get(reader)
     chk.expect(rec is not None and rec["keys"] == {"index"} and rec["ns"] == {"codec"} and "NameValue" in rec["metas"], "R3.3", "scale-info-derive:maybe_index",
                "derive/src/utils.rs", "recognises %s" % (rec,), cfg)
     # template: .index(#index as ::core::primitive::u8)
